@@ -2,7 +2,7 @@
 Attribution for arbitrary programs rests on C04's undecided exactness. DESIGN.md section 4, C07."""
 import itertools
 from .common import *
-from .C04 import stamping_rule
+from .C04 import stamping_rule, table_walk_rules
 from cpv.ceval import Evaluator, Unknown
 
 PL = "MemoryLeakWarningPlugin"
@@ -139,6 +139,9 @@ def check(ctx, run):
                 badm = "records with periods %s become %s (walk asked for periods %s), expected %s" % (periods, after, asked, want)
     run.ob("R2", "demotion folded over every pair of records x periods: exactly the checking-period records become enabled, the walk asks for the checking period", mk.site, badm is None, witness=badm or "32 cases", what=badm or "")
     stamping_rule(prog, run, "R2")
+    # the demotion (and the report) walk the table with getFirstLeak/getNextLeak: a walker that skips records leaves
+    # their checking-period stamp for the next test
+    table_walk_rules(prog, run, "R2", "R2", only=("getFirstLeak", "getNextLeak"))
     ct = [f for f in prog.methods_of(DET) if f.kind == "ctor"][0]
     a = [(l, render(ct, r)) for l, r, n in assignments(ct)]
     run.ob("R2", "a new detector starts disabled", ct.site, ("current_period_", "mem_leak_period_disabled") in a, witness=a)
